@@ -261,3 +261,42 @@ def without(inv, c):
         bad = set(w[0] for w in witness(inv, c))
         c['reg'] = [r for r in c['reg'] if r[0] not in bad]
     return c
+
+
+def resolution_problems(terminals, consts):
+    """The rename table as the IMPLEMENTATION resolves it (lookup_class_with_patches) against where Versions.tla says every old
+    name must end up (Terminals, computed by TLC): when the end of the chain is an importable object of this package, the
+    implementation must return exactly that object."""
+    use_repo()
+    from glue.core import state as S
+    import signal
+    out = []
+    importable = set(consts['importable'])
+
+    class _Timeout(Exception):
+        pass
+
+    def on_alarm(signum, frame):
+        raise _Timeout()
+    old = signal.signal(signal.SIGALRM, on_alarm)
+    try:
+        for k, end in sorted(terminals.items()):
+            if end not in importable:
+                continue
+            want = S.lookup_class(end)
+            signal.alarm(5)
+            try:
+                got = S.lookup_class_with_patches(k)
+            except _Timeout:
+                out.append(('patch_resolution[%s]' % k, end, 'did not terminate within 5 s'))
+                continue
+            except Exception as e:
+                out.append(('patch_resolution[%s]' % k, end, 'raised %s: %s' % (type(e).__name__, str(e)[:150])))
+                continue
+            finally:
+                signal.alarm(0)
+            if got is not want:
+                out.append(('patch_resolution[%s]' % k, end, '%s.%s' % (getattr(got, '__module__', '?'), getattr(got, '__name__', got))))
+    finally:
+        signal.signal(signal.SIGALRM, old)
+    return out
